@@ -56,7 +56,9 @@ def compile_alone(paths, scratch, timeout=1800):
     outd = os.path.join(scratch, 'classes')
     os.makedirs(outd, exist_ok=True)
     try:
-        p = subprocess.run(['java', '-Xss16m', drv, outd, lst], capture_output=True, text=True, timeout=timeout)
+        # cwd = scratch: a crashing javac dumps a javac.<timestamp>.args file into its working directory
+        p = subprocess.run(['java', '-Xss16m', drv, outd, lst], capture_output=True, text=True, timeout=timeout,
+                           cwd=scratch)
     except subprocess.TimeoutExpired:
         return None
     blocks = re.findall(r'@@@BEGIN (-?\d+) (\S+)\n(.*?)\n@@@END\n', p.stdout, re.S)
